@@ -275,8 +275,8 @@ Proof.
               ar_eval (ar_mk_env genv (snd inst ++ ar_t_bindings t ++ ar_r_use r)) (ar_r_filter r) = AVBool (ar_mem (ar_t_host t) ns)).
     { intros inst I. pose proof (ar_indexed_filter genv r t l inst Sh HI I) as P. rewrite Ei in P. exact P. }
     destruct (ar_mem (ar_t_host t) ns) eqn:M.
-    + f_equal. apply map_ext_in. intros inst I. unfold ar_eval_instance. rewrite (Q inst I). reflexivity.
-    + symmetry. apply ar_collect_all_nil. intros inst I. unfold ar_eval_instance. rewrite (Q inst I). reflexivity.
+    + f_equal. apply map_ext_in. intros inst I. unfold ar_eval_instance, ar_inst_at. rewrite (Q inst I). reflexivity.
+    + symmetry. apply ar_collect_all_nil. intros inst I. unfold ar_eval_instance, ar_inst_at. rewrite (Q inst I). reflexivity.
   - unfold ar_eval_rule.
     destruct (ar_instances r (ar_mk_env genv (ar_t_bindings t ++ ar_r_use r))) eqn:HI.
     2:{ exfalso. apply F; congruence. }
@@ -284,8 +284,8 @@ Proof.
               ar_eval (ar_mk_env genv (snd inst ++ ar_t_bindings t ++ ar_r_use r)) (ar_r_filter r) = AVBool (ar_mem2 (ar_t_host t) (ar_t_svc t) ps)).
     { intros inst I. pose proof (ar_indexed_filter genv r t l inst Sh HI I) as P. rewrite Ei in P. exact P. }
     destruct (ar_mem2 (ar_t_host t) (ar_t_svc t) ps) eqn:M.
-    + f_equal. apply map_ext_in. intros inst I. unfold ar_eval_instance. rewrite (Q inst I). reflexivity.
-    + symmetry. apply ar_collect_all_nil. intros inst I. unfold ar_eval_instance. rewrite (Q inst I). reflexivity.
+    + f_equal. apply map_ext_in. intros inst I. unfold ar_eval_instance, ar_inst_at. rewrite (Q inst I). reflexivity.
+    + symmetry. apply ar_collect_all_nil. intros inst I. unfold ar_eval_instance, ar_inst_at. rewrite (Q inst I). reflexivity.
 Qed.
 
 (* ------------------------------------------------------------------ whole loads *)
@@ -358,7 +358,7 @@ Proof.
   intros. unfold ar_eval_rule. simpl ar_r_use.
   change (ar_instances (ar_wrap_rule r)) with (ar_instances r).
   destruct (ar_instances r (ar_mk_env genv (ar_t_bindings t ++ ar_r_use r))); auto.
-  f_equal. apply map_ext. intros inst. unfold ar_eval_instance.
+  f_equal. apply map_ext. intros inst. unfold ar_eval_instance, ar_inst_at.
   change (ar_r_filter (ar_wrap_rule r)) with (ar_wrap (ar_r_filter r)).
   rewrite ar_wrap_truthy. reflexivity.
 Qed.
